@@ -74,6 +74,11 @@ def jitter_bad(pid, ob, call, res):
 
 
 def search(pid, ob, seed):
+    if ob.backend in ('replay-differential', 'replay-sweep'):
+        for d in ob.detail or []:
+            if d.get('failing_input'):
+                return d['failing_input']
+        return None
     if ob.backend.startswith('kani'):
         # Kani's own counterexample: the concrete values of every kani::any() of the failing harness (concrete playback);
         # the harness runs the real compiled code, so re-running it *is* the replay on the real code
@@ -111,6 +116,14 @@ def search(pid, ob, seed):
 
 def replay(rec):
     ce = rec['failing_input']
+    if ce['kind'] == 'isaac_serde_sweep':
+        build_replay()
+        res = run_replay(['serde-positions'], timeout=600)
+        print('recorded : ' + ce['observed'])
+        print('observed : ' + res)
+        bad = not res.startswith('RESULT ok')
+        print('the violation %s' % ('REPRODUCES' if bad else 'does not reproduce on the current tree'))
+        return 1 if bad else 0
     if ce['kind'] == 'kani_harness':
         from . import kani
         for setname, hs in kani.SETS.items():
@@ -130,7 +143,9 @@ def replay(rec):
         print('replaying on the real code: call=%s rounds=%s base=%s deltas=%s' % (ce['call'], ce['rounds'], ce['base'], ce['deltas']))
         print('recorded : ' + ce['observed'])
         print('observed : ' + res)
-        if ce.get('expect') == 'fill_reads_timer':
+        if ce.get('expect') == 'agree':
+            bad = 'MISMATCH' in res or 'RESULT panic' in res
+        elif ce.get('expect') == 'fill_reads_timer':
             import re
             m = re.search(r'\[fill:\d+ -> \S+ reads\+(\d+)\]', res)
             bad = bool(m) and int(m.group(1)) == 0
@@ -140,3 +155,90 @@ def replay(rec):
         return 1 if bad else 0
     print(ce)
     return 1
+
+
+# ---- differential fallback for rand_jitter (real code vs. executable twin of the specification) -----------------------
+
+def jitter_diff_candidates(seed, prop):
+    rnd = random.Random(seed + 17)
+    seqs = {
+        'C12': ['next_u64', 'next_u64+next_u32+next_u32+next_u64', 'fill:16+next_u32', 'next_u32+next_u64'],
+        'C05': ['next_u32+next_u32+next_u32', 'fill:13+next_u64', 'fill:8+fill:5+fill:3', 'next_u64+fill:20'],
+        'C16': ['next_u32+fill:8+next_u32', 'next_u32+fill:12+next_u32', 'next_u32+next_u64+next_u32', 'next_u32+clone_next_u32+next_u32',
+                'next_u32+fill:32+next_u32', 'next_u32+next_u32+next_u32+fill:5+next_u32'],
+        'C13': ['test_timer'],
+        'C14': ['next_u64', 'test_timer', 'fill:9'],
+    }.get(prop, ['next_u64', 'test_timer'])
+    scripts = []
+    big = [1 << 31, (1 << 31) + 5, 3 << 30, (1 << 32) + 7, 1 << 32, 1 << 33, (1 << 63) + 3, (1 << 64) - 5]
+    for a in (3, 7, 40, 1000, 123457):
+        scripts.append((1000, [a, a + 1, a + 5, 2 * a + 1, a + 2]))
+    for b in big:
+        scripts.append((1000, [5, 1, 1, b, 9, 2, 3, 17]))
+        scripts.append(((1 << 63) - 20, [7, 3, b % 1000 + 1, 11]))
+        scripts.append((12345, [5, 1, 1, 1000, 5, 1, 1, b]))
+    for m in (1 << 32, 2 << 32, 1 << 33, 1 << 40):
+        # one probe / measurement delta that is an exact non-zero multiple of 2^32 (truncates to 0), others ordinary
+        scripts.append((1000, [5, 1, 1, 977, 5, 1, 1, m - 2, 5, 1, 1, 1311, 7, 1, 1, 1733]))
+        scripts.append((1000, [5, 1, 1, m - 2]))
+    for lo in list(range(1, 12)) + [15, 16, 17, 31, 32, 33, 63, 64, 100, 200]:
+        scripts.append((1000, [5, 1, 1, lo, 5, 1, 1, lo + 1]))
+        scripts.append((1000, [5, 1, 1, lo, 5, 1, 1, lo + 2, 5, 1, 1, lo + 7]))
+    for _ in range(30):
+        n = rnd.choice([3, 5, 8])
+        scripts.append((rnd.getrandbits(rnd.choice([10, 40, 63])) | 1, [rnd.choice([1, 2, 9, 100, 4096, rnd.getrandbits(rnd.choice([5, 20, 31, 33])) | 1]) for _ in range(n)]))
+    out = []
+    for sq in seqs:
+        for base, deltas in scripts:
+            for rounds in ((1, 3) if sq != 'test_timer' else (0,)):
+                out.append(('diff:' + sq, rounds, base, deltas))
+    return out
+
+
+def jitter_diff_part(prop, seed=0, budget_s=240):
+    """Fallback part: drive the REAL rand_jitter code and the executable twin of the specification with the same scripted
+    timers; a MISMATCH is a violation with a concrete replay input.  Exploration only: agreeing runs prove nothing and are
+    reported as a bounded stand-in."""
+    from .parts import PartResult, Ob, DISCHARGED, FAILED
+    import time as _t
+    pr = PartResult('diff:jitter')
+    t0 = _t.time()
+    build_replay()
+    n = 0
+    found = None
+    for call, rounds, base, deltas in jitter_diff_candidates(seed, prop):
+        if _t.time() - t0 > budget_s:
+            break
+        res = run_replay(['jitter', call, rounds, base, ','.join(str(d) for d in deltas)])
+        n += 1
+        if 'MISMATCH' in res or 'RESULT panic' in res:
+            found = dict(kind='jitter_timer_script', call=call, rounds=rounds, base=base, deltas=deltas, observed=res, expect='agree',
+                         explanation='differential run: real rand_jitter (dev profile) vs. the executable twin of the specification on the same scripted timer')
+            break
+    ob = Ob('diff:jitter:%s' % prop, [prop], FAILED if found else DISCHARGED, 'replay-differential', fn='rand_jitter (public API)', kind='differential',
+            text='%d scripted-timer runs, real code vs. specification twin' % n,
+            detail=[dict(message=found['observed'], rendered=found['observed'], failing_input=found)] if found else [],
+            bounded='exploration: %d scripted timers x call sequences' % n)
+    pr.obs.append(ob)
+    pr.cmd = 'replay/target/debug/rngs-replay jitter diff:<calls> <rounds> <base> <deltas>'
+    pr.wall_s = _t.time() - t0
+    return pr
+
+
+def isaac_serde_sweep_part():
+    """C11 bounded stand-in for IsaacRng / Isaac64Rng: native sweep over every snapshot point (replay crate, real crates with
+    the serde feature, bincode)."""
+    from .parts import PartResult, Ob, DISCHARGED, FAILED
+    import time as _t
+    pr = PartResult('sweep:isaac_serde')
+    t0 = _t.time()
+    build_replay()
+    res = run_replay(['serde-positions'], timeout=600)
+    bad = not res.startswith('RESULT ok')
+    fi = dict(kind='isaac_serde_sweep', observed=res, explanation='native sweep over all snapshot points of IsaacRng / Isaac64Rng on the real crates (serde feature, bincode)')
+    pr.obs.append(Ob('sweep:isaac_serde_positions', ['C11'], FAILED if bad else DISCHARGED, 'replay-sweep', fn='rand_isaac::{IsaacRng, Isaac64Rng}', kind='sweep',
+                     text=res, detail=[dict(message=res, rendered=res, failing_input=fi)] if bad else [],
+                     bounded='3 seeds x 2 blocks x 261 word offsets x {0,1,2} preceding next_u32 calls, 5 continuation patterns of 300 calls each'))
+    pr.cmd = 'rngs-replay serde-positions'
+    pr.wall_s = _t.time() - t0
+    return pr
